@@ -41,6 +41,17 @@ type RunCtx struct {
 	Nontrivial bool
 }
 
+// Thorough reports whether the thorough tier's wider bounds apply.
+func (rc *RunCtx) Thorough() bool { return rc.Params["tier"] == "thorough" }
+
+// Scale returns quick in the quick tier and thorough in the thorough tier.
+func (rc *RunCtx) Scale(quick, thorough int) int {
+	if rc.Thorough() {
+		return thorough
+	}
+	return quick
+}
+
 // Cfg draws a configuration decision.
 func (rc *RunCtx) Cfg(n int) int { return rc.Tape.Intn("cfg", n) }
 
